@@ -9,6 +9,8 @@ import json
 from . import c04, common, gen_reqs
 from .common import Failure
 
+# the generator's default features plus "stress": statements built to fail are frequent (which failure is reported first)
+STRESS = {"match", "loops", "helpers", "structs", "assign", "impure", "shadow", "untyped", "stress"}
 PROP_MODULES = ["GarbleVerif.Props.C02"]
 
 
@@ -198,7 +200,7 @@ def run(ctx):
             distinct.add(json.dumps(c["reqs"]))
     # part (b): whole programs — panic iff the source semantics fail, with the reason of the first failing operation
     from . import c01
-    pfs, ptally, pstats, pcases = c01.collect(ctx, 800 if quick else 15000, {}, prefix="c02:program", strict_reason=True)
+    pfs, ptally, pstats, pcases = c01.collect(ctx, 800 if quick else 15000, {"features": STRESS}, prefix="c02:program", strict_reason=True)
     failures += pfs
     seen_sig, uniq = set(), []
     for f in failures:
